@@ -23,8 +23,38 @@ STRENGTHENED = {
     "C19-1": "inputs that are SignalSlices with index-array / boolean-mask indices; base signal state compared",
     "C19-2": "complex inputs with relative_dx in the quick tier (and the replay enumerates complex entries correctly)",
     "C20-1": "the same DomainDefinition written three times; domain compared before/after",
+    # ---- round 2
+    "C02-3": "slice kind 'l' (tuple holding an index list: NumPy returns a copy) in the wiring grid",
+    "C03-3": "histories with several seed/sensitivity/reset passes after ONE response, seeding different outputs",
+    "C04-3": "ComplexNorm item that admits |z| = 0 (code branching on it is followed into the branch); state clauses replayed numerically",
+    "C04-4": "C04 itself does not reach the sparse eigenvector adjoint (its four independent oracle runs do not finish); the new sparse "
+             "EigenSolve items of C01 catch the change",
+    "C05-3": "solver objects re-used for a second matrix (Cholesky success->failure and failure->success, LU, LDL, diagonal, sparse LU)",
+    "C06-3": "history with a block whose first column is already known (mask of new columns [False, True])",
+    "C07-3": "free/prescribed index sets in the user's own (not ascending) order",
+    "C07-4": "StaticCondensation on non-symmetric matrices (response only)",
+    "C08-3": "three module constructions with the same material in one process",
+    "C10-4": "asymptote update rule with the parameters the user passed (asyincr/asydecr) as a clause",
+    "C11-4": "clauses evaluated against pre-call copies of the pencil + 'inputs unchanged' (the LAPACK overwrite model destroyed the "
+             "reference too); column-major replay",
+    "C13-3": "another DomainDefinition with the same element count is built and queried first (process history)",
+    "C13-4": "found by z3 at once but lost in the replay (a clause about concrete tables has no symbolic witness): replay fixed",
+    "C15-4": "value / in-place modification / same value programs for every memoisable value operation",
+    "C16-3": "np.isclose modelled as the inequality NumPy evaluates instead of exact equality",
+    "C17-3": "found by the existing positive-gradient item, which ran into the item time-out under the change: time-outs raised",
+    "C18-3": "rank-0 array values (mutable scalars) as a fifth shape class",
 }
-NOT_CAUGHT = {}
+NOT_CAUGHT = {
+    "C10-3": "outside the claim: the fault needs integer-typed design vectors (np.concatenate keeps int64, np.zeros_like then truncates "
+             "fractional bounds); object arrays carry no integer/float distinction and the logical-dtype mode only tracks real/complex",
+    "C16-4": "outside the claim: a floating-point overflow (exp of > 709) of a mathematically neutral log-sum-exp shift; float64 is "
+             "modelled as exact reals",
+    "C17-4": "outside the claim: needs two chained outer iterations of minimize_oc (bisection bracket carried over); one outer iteration "
+             "from an arbitrary design is the bound, and the 'volume equals maxvol' clause is listed as not decided",
+    "C18-4": "outside the claim: needs inf/nan entries in a sensitivity (x *= 0 keeps nan); non-finite values are not modelled",
+    "C12-4": "C12 itself uses one construction per item; the same change is caught by C08 (repeated constructions)",
+    "C03-4": "C03 does not run CG (contract oracle as inner solver); the same change is caught by C05 (CG stopping rule)",
+}
 rows = []
 for d in sorted(glob.glob(os.path.join(HERE, "seeded", "C*-*"))):
     sid = os.path.basename(d)
